@@ -107,7 +107,17 @@ FdStep(j, a) ==
 
 Ada == \E g \in [1..D -> GVals] : AdaStep(g)
 Fd  == \E j \in 1..D, a \in Masses : FdStep(j, a)
-Next == OgdStep \/ Ada \/ Fd
+Step == OgdStep \/ Ada \/ Fd
+\* init_fn() of the SAME bound (init, update) pair called again after any history: a fresh state.  The
+\* updates mutate the state dict they are given, so the closure built by generate_init_update must not
+\* hand out one cached object (the harness runs an earlier sequence through every pair it judges).
+Rebind == /\ n > 0
+          /\ n' = 0 /\ gs' = <<>> /\ tc' = 0 /\ esc' = 0 /\ w' = <<>>
+          /\ h' = [i \in 1..cfg.d |-> cfg.dN] /\ hsq' = {}
+          /\ rows' = IF cfg.alg \in Sketched THEN InitRows(cfg.k) ELSE <<>>
+          /\ alpha2' = 2 * cfg.dN
+          /\ UNCHANGED cfg
+Next == Step \/ Rebind
 Spec == Init /\ [][Next]_vars
 
 -----------------------------------------------------------------------------
